@@ -5,8 +5,8 @@ comparing, shrinking, known findings, evidence."""
 import fcntl, glob, hashlib, json, os, re, shutil, subprocess, sys, time
 from concurrent.futures import ThreadPoolExecutor
 
-ROOT = "/verif"
-REPO = "/repo"
+ROOT = os.environ.get("VERIF_ROOT", "/verif")    # overridable only for mutant evaluation in a scratch copy
+REPO = os.environ.get("VERIF_REPO", "/repo")
 BUILD = os.path.join(ROOT, "build")
 COQ = os.path.join(ROOT, "coq")
 GO_TOOLCHAIN = "/root/go/pkg/mod/golang.org/toolchain@v0.0.1-go1.24.0.linux-amd64/bin/go"
